@@ -10,6 +10,8 @@
 (*   cte(name) ... end     a WITH entry and its body query                 *)
 (*   main                  the statement's own query starts                *)
 (*   tbl(join, schema, name) / cteref(join, name)   a FROM item            *)
+(*   selfref(join, name)   the CTE being defined, read in the second       *)
+(*                         branch of its own body (a recursive CTE)        *)
 (*   sub(join) ... end     a derived table                                 *)
 (*   paren(join) ... end   a parenthesised join  ( t1 JOIN t2 ON .. )      *)
 (*   where ... end         a subquery in WHERE (a second one directly      *)
@@ -119,6 +121,18 @@ FromName == /\ phase = "body" /\ Room /\ NRel(Top) < MaxRel /\ ~Top.nb
                  /\ stack' = SetTop(AddRel(Top, j, c, cd))
                  /\ fired' = IF c # cd THEN fired \cup {"D_CTE_VISIBLE_IN_OWN_BODY"} ELSE fired
             /\ UNCHANGED <<ds, ctes, phase, out, outDev>>
+\* a recursive CTE: the second branch of the CTE's own body reads the CTE that is being defined,
+\*   WITH [RECURSIVE] x AS ( SELECT .. FROM base UNION ALL SELECT .. FROM x JOIN .. ) ...
+\* There the name is the CTE itself (with the keyword in every dialect; without it in the dialects that have no such keyword:
+\* tsql, oracle, db2) and never a table.  D_SELFREF_AS_TABLE: the CTE is not yet registered when its body is read.
+FromSelf == /\ phase = "body" /\ Room /\ "selfref" \in Clauses /\ Len(stack) = 1 /\ InCteBody # None /\ Top.br = 2 /\ NRel(Top) < MaxRel /\ ~Top.nb
+            /\ ~\E i \in DOMAIN prog : prog[i].e = "selfref"
+            /\ \E j \in Joins :
+                 LET cd == IF "D_SELFREF_AS_TABLE" \in Known THEN {Tbl(None, InCteBody)} ELSE {} IN
+                 /\ prog' = Append(prog, Ev("selfref", j, None, InCteBody))
+                 /\ stack' = SetTop(AddRel(Top, j, {}, cd))
+                 /\ fired' = IF cd # {} THEN fired \cup {"D_SELFREF_AS_TABLE"} ELSE fired
+            /\ UNCHANGED <<ds, ctes, phase, out, outDev>>
 Push(ev, role, f) == /\ phase = "body" /\ Room /\ Len(stack) <= MaxDepth /\ prog' = Append(prog, ev)
                      /\ stack' = Append(SetTop(f), Frame(role)) /\ UNCHANGED <<ds, ctes, phase, out, outDev, fired>>
 FromSub == /\ phase = "body" /\ NRel(Top) < MaxRel /\ ~Top.nb /\ \E j \in Joins : Push(Ev("sub", j, None, None), "derived:" \o j, Top)
@@ -174,7 +188,7 @@ End == /\ phase = "body" /\ (NRel(Top) >= (IF InParen THEN 2 ELSE 1) \/ Top.nb) 
                     ELSE AddRel(p, IF f.role \in {"derived:first", "paren:first"} THEN "first"
                                    ELSE IF f.role \in {"derived:comma", "paren:comma"} THEN "comma" ELSE "inner",
                                 f.acc, f.accDev)]
-Next == Start \/ CteOpen \/ Main \/ FromName \/ FromSub \/ FromParen \/ WhereSub \/ ItemSub \/ HavingSub \/ OnSub \/ Union \/ NestedBranch \/ End
+Next == Start \/ CteOpen \/ Main \/ FromName \/ FromSelf \/ FromSub \/ FromParen \/ WhereSub \/ ItemSub \/ HavingSub \/ OnSub \/ Union \/ NestedBranch \/ End
 Spec == Init /\ [][Next]_vars
 
 \* ---------------------------------------------------------------- the property, read off the program alone
